@@ -147,6 +147,7 @@ func workerMain(args []string) {
 	t0 := time.Now()
 	rl := newRaceLog()
 
+	tape := simrt.NewTape(0)
 	var cur *Candidate // the run in flight, for the fatal handler
 	var curTape *simrt.Tape
 	onFatal := func(verdict int, detail string) {
@@ -211,7 +212,7 @@ func workerMain(args []string) {
 				continue
 			}
 		}
-		tape := simrt.NewTape(w.Seed)
+		tape.Reset(w.Seed)
 		cur = &Candidate{Prop: a.prop, Seed: a.seed, RunIdx: i, Wid: a.wid, Race: simrt.RaceEnabled, World: w}
 		curTape = tape
 		res := Execute(w, tape, gold, onFatal)
@@ -299,7 +300,7 @@ func workerMain(args []string) {
 		}
 		if viol != nil {
 			c := *cur
-			c.Tape = res.Tape
+			c.Tape = tape.Snapshot()
 			c.Violation = *viol
 			c.EventHash, c.ObsHash, c.Steps = res.EventHash, res.ObsHash, res.Stats.Steps
 			c.RaceText = raceText
@@ -387,7 +388,7 @@ func sampleOf(w *World, res *RunResult) json.RawMessage {
 	b, _ := json.Marshal(map[string]any{
 		"seed": w.Seed, "objects": objs, "tasks": tasks, "policy": simrt.PolicyNames[w.Cfg.Policy%simrt.NPolicies],
 		"steps": res.Stats.Steps, "context_switches": res.Stats.Switches, "faults_fired": res.FaultsFired,
-		"sched_tape_len": len(res.Tape[simrt.KSched]),
+		"sched_decisions": res.Stats.Steps,
 	})
 	return b
 }
